@@ -57,6 +57,10 @@ pub struct MapG {
     pub prot: u8,
     pub file: bool,
     pub seed: u64,
+    /// pages of anonymous PROT_NONE memory directly behind a file mapping (the linker's reserved range);
+    /// addresses "in this mapping" may then lie in the reserved part
+    #[serde(default)]
+    pub reserved_after: u8,
 }
 
 #[derive(Debug, Clone, PartialEq, Eq, Hash, Serialize, Deserialize)]
@@ -166,7 +170,11 @@ pub fn build(c: &Case, scratch: &std::path::Path) -> Built {
             b.spec.files.push((path.clone(), content));
             let addr = b.next_map_addr();
             b.add_file_map_at(addr, pages, m.prot & 7, &path, 0, false);
-            map_addrs.push((addr, pages * PAGE, m.prot & 7));
+            let reserved = (m.reserved_after % 4) as u64;
+            if reserved > 0 {
+                b.add_anon_at(addr + pages * PAGE, reserved, 0, 0);
+            }
+            map_addrs.push((addr, (pages + reserved) * PAGE, m.prot & 7));
             files.push(path);
         } else {
             let (_, addr) = b.add_anon(pages, m.prot & 7, m.seed | 1);
@@ -328,6 +336,19 @@ pub fn check(c: &Case) -> Verdict {
     }
     let opts = opts_of(c, &bt, &t);
     let mut w = make_writer(t.pid, &opts);
+    // a third of the cases: the request judged is a retry - the same writer first made a request that
+    // failed (destination error at a call derived from the case)
+    let h = fp_json(c);
+    let retried = h % 3 == 0;
+    if retried {
+        let mut failing = Dest::new(vec![], 0).with_fault(crate::vcore::dest::Fault::ErrAt(2 + (h >> 8) % 70));
+        if let DumpOutcome::Panic(l, m) = run_dump(&mut w, &mut failing) {
+            return panic_verdict(&l, &m);
+        }
+        if !t.wait_settled(&bt.spec) {
+            return Verdict::Inconclusive("target did not settle between two requests".into());
+        }
+    }
     let mut dest = Dest::new(vec![], 0);
     let out = run_dump(&mut w, &mut dest);
     let img = match out {
@@ -432,7 +453,7 @@ pub fn opts_strategy() -> impl Strategy<Value = OptsG> {
 pub fn case_strategy(max_threads: usize) -> impl Strategy<Value = Case> {
     (
         proptest::collection::vec(thread_strategy(), 0..max_threads),
-        proptest::collection::vec((1u8..5, 0u8..8, any::<bool>(), any::<u64>()).prop_map(|(pages, prot, file, seed)| MapG { pages, prot, file, seed }), 0..7),
+        proptest::collection::vec((1u8..5, prop_oneof![3 => 0u8..8, 1 => Just(5u8)], any::<bool>(), any::<u64>(), prop_oneof![2 => Just(0u8), 1 => 1u8..4]).prop_map(|(pages, prot, file, seed, reserved_after)| MapG { pages, prot, file, seed, reserved_after }), 0..7),
         proptest::collection::vec(any::<u8>(), 0..41),
         opts_strategy(),
     )
